@@ -397,3 +397,20 @@ def SPEC_sample_for(c, maximal=False):
 def _no(chk, site, why):
     chk.harness_error("z3 model for %s did not reproduce: %s" % (site, why))
     return False
+
+
+# ---------------------------------------------------------------- hand-written wrappers around generated class functions
+def wrapper_cases(cases):
+    return [c for c in cases if getattr(c.sm, "wrapper", None) is not None or getattr(c.um, "wrapper", None) is not None]
+
+
+def alias_candidates(c):
+    """undeclared names that 'helpful' key normalisation would identify with a declared key of this class"""
+    out = []
+    declared = set(c.props)
+    for w in c.props:
+        sn = specmodel.snake(w)
+        for cand in (sn, sn + "_", w + "_", "_" + w, w.lower(), w.upper(), w[:1].upper() + w[1:], sn.replace("_", "-")):
+            if cand not in declared and cand not in out:
+                out.append(cand)
+    return out
